@@ -1161,7 +1161,10 @@ pub fn parse(lex_tokens: &Vec<LexerToken>) -> Result<ParseResult, CompilerError>
                     Some(left) => match nodes.get_mut(left) {
                         None => implementation_error_with_token(format!("Index assigned to node has no value in node list. {:?}", left), token)?,
                         Some(left_node) => {
-                            if left_node.definition.is_optional() || left == ended_group {
+                            // the group is empty only if the node it expected on its right was never created
+                            // (last left can also be the group itself after a finished side effect block inside it)
+                            let empty_group = left == ended_group && left_node.right == Some(current_id);
+                            if left_node.definition.is_optional() || empty_group {
                                 left_node.right = None;
                             }
 
